@@ -21,6 +21,9 @@ type Scenario struct {
 	// QuickBound, if not zero, is the preemption bound of this scenario in the
 	// quick tier (the thorough tier uses the common bound).
 	QuickBound int
+	// CloseAfter: after the threads have finished the storage is closed and every
+	// query is asked again (file-backed jobs): what was returned stays served.
+	CloseAfter bool
 }
 
 var c14ListA = ListSpec{ID: 1, Text: "! list A\n" +
@@ -29,8 +32,8 @@ var c14ListA = ListSpec{ID: 1, Text: "! list A\n" +
 	"/ex[a-z]+le\\.net/\n" +
 	"/exa(?!b)ample\\.net/\n" + // parses, does not compile: marked invalid at first use
 	"/ad$domain=example.org\n" +
-	"/ads?$domain=z.org|example.org\n" +
-	"/ads?$domain=z.org|example.org,badfilter\n" +
+	"/ads$domain=z.org|example.org\n" +
+	"/ads$domain=z.org|example.org,badfilter\n" +
 	"/firstad\n" +
 	"/secondbn\n" +
 	"@@||example.org^$generichide\n" +
@@ -88,10 +91,10 @@ func C14Scenarios() []Scenario {
 	cos := Query{Kind: "cosmetic", Host: "example.org", Option: rules.CosmeticOptionAll}
 	return []Scenario{
 		{Name: "S1-same-rule-twice-in-url-2t", Lists: both, Threads: [][]Query{{twice}, {twice}}, Warm: []Query{twice}},
-		{Name: "S2-different-uncached-rules-2t", Lists: both, Threads: [][]Query{{q1}, {q2}}, Warm: []Query{q1, q2}},
+		{Name: "S2-different-uncached-rules-2t", Lists: both, Threads: [][]Query{{q1}, {q2}}, Warm: []Query{q1, q2}, CloseAfter: true},
 		{Name: "S2-different-uncached-rules-3t", Lists: both, Threads: [][]Query{{q1}, {q2}, {q3}}, Warm: []Query{q1}},
 		{Name: "S3-lazy-regex-compile-2t", Lists: both, Threads: [][]Query{{rx}, {rx}}, Warm: []Query{q1}},
-		{Name: "S4-dns-pool-2t", Lists: both, Threads: [][]Query{{d2, d5}, {d3, d1}}, Warm: []Query{d1}},
+		{Name: "S4-dns-pool-2t", Lists: both, Threads: [][]Query{{d2, d5}, {d3, d1}}, Warm: []Query{d1}, CloseAfter: true},
 		{Name: "S4-dns-pool-3t", Lists: both, Threads: [][]Query{{d2, d5}, {d3, d4}, {d6, d7}}, Warm: []Query{d1, d7}},
 		{Name: "S4-dns-pool-both-tagged-2t", Lists: both, Threads: [][]Query{{d3, d5}, {d3b, d3}}, Warm: []Query{d1}},
 		{Name: "S8-last-lines-of-two-files-2t", Lists: both, Threads: [][]Query{{q2}, {d4}}, Warm: []Query{q1}},
